@@ -166,6 +166,18 @@ def slashedBy (s : St) (key : Nat) (staked : Nat → Bool) : List Nat :=
   | some op => if staked op then [op] else []
   | none => []
 
+/-- x/dogfood/keeper/impl_sdk.go: ValidatorByConsAddr → x/operator/keeper/consensus_keys.go:
+ValidatorByConsAddrForChainID — the GATE of the two SDK callers: x/slashing's HandleValidatorSignature
+(downtime) and x/evidence's HandleEquivocationEvidence (double sign) first ask for the validator of the
+consensus address and return without slashing or jailing when the answer is nil. The operator of the
+returned validator: the reverse lookup must resolve the address (`!found` returns), and the resolved
+operator must be registered and have a CURRENT key (`GetOperatorConsKeyForChainID`: the validator object
+is built from the operator's current public key, whatever address was asked for). -/
+def validatorTarget (s : St) (key : Nat) : Option Nat :=
+  match s.rev key with
+  | none => none
+  | some op => if s.registered op && (s.fwd op).isSome then some op else none
+
 /-- impl_delegation_hooks.go: AfterUndelegationStarted (after "fix: undelegation in the block
 that finishes an opt-out"). Result: (outcome, state). -/
 def undelegationStarted (s : St) (op rec : Nat) : Out × St :=
